@@ -1,3 +1,7 @@
+//! Instantiates every program of `vf_hydro_progs1` with embedded inputs `a`, `b` (streams of
+//! `(i32, i32)`) and `s` (singleton `i32`) and runs the PRODUCTION embedded code generator
+//! (`generate_embedded` = compile_internal + partition_graph + as_code). One module per program
+//! is written to `$OUT_DIR/programs.rs`; each exposes `run(s, a, b, &mut run::EmbeddedOutputs)`.
 use hydro_lang::location::Location;
 
 macro_rules! gen_prog {
@@ -13,22 +17,23 @@ macro_rules! gen_prog {
             .with_process(&process, "run")
             .generate_embedded("vf_hydro_progs1");
         $out.push_str(&format!(
-            "#[allow(unused_imports, unused_qualifications, missing_docs, non_snake_case, unused)]\npub mod {} {{\n{}\n}}\n",
+            "pub mod {} {{\n{}\n}}\n",
             stringify!($modname),
             prettyplease::unparse(&code)
         ));
     }};
 }
 
+include!("gen_build.rs");
+include!("hand_build.rs");
+
 fn main() {
     println!("cargo::rerun-if-changed=build.rs");
+    println!("cargo::rerun-if-changed=gen_build.rs");
+    println!("cargo::rerun-if-changed=hand_build.rs");
     let out_dir = std::env::var("OUT_DIR").unwrap();
     let mut out = String::new();
-    gen_prog!(out, h_map, vf_hydro_progs1::hand::h_map);
-    gen_prog!(out, h_join, vf_hydro_progs1::hand::h_join);
-    gen_prog!(out, h_fold, vf_hydro_progs1::hand::h_fold);
-    gen_prog!(out, h_keyed_fold, vf_hydro_progs1::hand::h_keyed_fold);
-    gen_prog!(out, h_cross_singleton, vf_hydro_progs1::hand::h_cross_singleton);
-    gen_prog!(out, h_unordered, vf_hydro_progs1::hand::h_unordered);
+    gen_all(&mut out);
+    hand_all(&mut out);
     std::fs::write(format!("{out_dir}/programs.rs"), out).unwrap();
 }
